@@ -112,6 +112,7 @@ impl Profile {
                 (2, Kind::Arr),
                 (3, Kind::P),
                 (4, Kind::DB),
+                (3, Kind::NT),
                 (5, Kind::Set),
             ],
             neg_adjust: true,
@@ -234,6 +235,7 @@ pub fn step_strategy(p: &Profile) -> BoxedStrategy<Step> {
         (p.w_pacing, (arena(), any::<u8>()).prop_map(|(arena, preset)| Step::SetPacing { arena, preset }).boxed()),
         (p.w_map_root, (arena(), any::<bool>(), if p.w_cb_panic > 0 { outcome() } else { Just(Outcome::Ok).boxed() }, ops(p, false)).prop_map(|(arena, fallible, outcome, ops)| Step::MapRoot { arena, fallible, outcome, ops }).boxed()),
         (p.w_handle, any::<u8>().prop_map(|h| Step::CloneHandle { h }).boxed()),
+        (p.w_handle / 2, (any::<u8>(), any::<u8>()).prop_map(|(dst, src)| Step::CloneFromHandle { dst, src }).boxed()),
         (p.w_handle, any::<u8>().prop_map(|h| Step::DropHandle { h }).boxed()),
         (p.w_trace_panic, (0u8..24).prop_map(|k| Step::ArmTracePanic { k }).boxed()),
         (p.w_new_arena, (any::<u8>(), any::<bool>(), if p.w_cb_panic > 0 { outcome() } else { Just(Outcome::Ok).boxed() }, ops(p, false)).prop_map(|(preset, fallible, outcome, ops)| Step::NewArena { preset, fallible, outcome, ops }).boxed()),
